@@ -1016,3 +1016,51 @@ def case_reach(cfg, p, case_cls, anc, stopping, sinks, flag_eval=None):
                 continue
             stack.append((t, nxt))
     return False
+
+
+def stored_attrs(cfg, call):
+    """self attributes that receive the object created by `call` (directly, through a chained assignment, or through
+    a local: `t = LoopingCall(f); self._looper = t`)."""
+    out = set()
+    for n in cfg.nodes:
+        if n.kind != "stmt" or not isinstance(n.stmt, (ast.Assign, ast.AnnAssign)):
+            continue
+        tg = n.stmt.targets if isinstance(n.stmt, ast.Assign) else [n.stmt.target]
+        attrs = [self_attr(t) for t in tg if self_attr(t)]
+        if not attrs:
+            continue
+        og = deferred_origins(cfg, n.id, n.stmt.value) or []
+        if len(og) == 1 and og[0] is call:
+            out |= set(attrs)
+    return out
+
+
+def value_origins(cfg, nid, expr, params=(), _depth=0):
+    """Where the value of `expr` at node `nid` comes from: [(node id, origin expr)] following locals through their
+    reaching definitions (plain assignments only).  A parameter with no definition is its own origin at the entry.
+    None when a definition cannot be followed."""
+    if _depth > 8:
+        return None
+    if isinstance(expr, ast.Name):
+        ds = reaching_defs(cfg, nid, expr.id)
+        out = []
+        if expr.id in params:
+            # the parameter's initial value reaches nid unless every path redefines it
+            writers = [n.id for n in cfg.nodes if expr.id in node_local_writes(n) and n.id != nid]
+            if nid in cfg.reach([cfg.entry.id], avoid=writers):
+                out.append((cfg.entry.id, expr))
+        if not ds and not out:
+            return None
+        for d in ds:
+            st = cfg.nodes[d].stmt
+            if not (isinstance(st, (ast.Assign, ast.AnnAssign)) and getattr(st, "value", None) is not None):
+                return None
+            tg = st.targets if isinstance(st, ast.Assign) else [st.target]
+            if not all(isinstance(t, (ast.Name, ast.Attribute)) for t in tg):
+                return None
+            sub = value_origins(cfg, d, st.value, params, _depth + 1)
+            if sub is None:
+                return None
+            out.extend(sub)
+        return out
+    return [(nid, expr)]
